@@ -188,6 +188,24 @@ func FlatCalls(root *ssa.Function, depth int, pred func(call ssa.CallInstruction
 // Before reports whether event a executes before event b on every path to b (same root).
 func Before(a, b Event) bool {
 	ca, cb := chain(a), chain(b)
+	// a deferred call registered inside a helper frame runs when that frame exits: seen from outside it happens at the
+	// frame's call site, so its own position inside the frame is dropped
+	trim := func(c []ssa.Instruction) []ssa.Instruction {
+		for len(c) > 1 {
+			if _, isDefer := c[len(c)-1].(*ssa.Defer); !isDefer {
+				break
+			}
+			c = c[:len(c)-1]
+		}
+		return c
+	}
+	if len(ca) != len(cb) || len(ca) < 2 || ca[len(ca)-2] != cb[len(cb)-2] {
+		// only when the two do not sit in the same innermost frame
+		ta, tb := trim(ca), trim(cb)
+		if !(len(ta) == len(tb) && len(ta) > 0 && ta[len(ta)-1] == tb[len(tb)-1]) {
+			ca, cb = ta, tb
+		}
+	}
 	for i := 0; i < len(ca) && i < len(cb); i++ {
 		if ca[i] == cb[i] {
 			continue
